@@ -1076,3 +1076,10 @@ def snark(fn):
 
 
 NAMES.update(snark=snark)
+
+
+def set_bitlength(n):
+    ctx.bl = n
+
+
+NAMES.update(set_bitlength=set_bitlength)
